@@ -445,12 +445,6 @@ func syncHistory(c *Ctx, id int) {
 	c.Hit("history")
 }
 
-func minInt(a, b int) int {
-	if a < b {
-		return a
-	}
-	return b
-}
 func maxInt(a, b int) int {
 	if a > b {
 		return a
